@@ -90,9 +90,13 @@ def paths_in(n):
     out = []
 
     def f(x, p):
+        import re
         k = x.get("k")
         if k in ("Path", "PPath", "PTupleStruct", "PStruct", "Struct"):
             out.append(x["path"]["s"])
+        elif k == "Macro" and x.get("tokens"):
+            # paths inside macro invocations (matches!(x, A::B { .. })) arrive as unparsed tokens
+            out.extend(re.findall(r"\b[A-Za-z_]\w*(?:\s*::\s*[A-Za-z_]\w*)+", x["tokens"].replace(" ", "")))
     walk(n, f)
     return out
 
@@ -110,7 +114,12 @@ def calls(n, path_suffix=None):
 
 
 def str_lits(n):
-    return [x["v"] for x in find_all(n, lambda x: x.get("k") == "Lit" and x.get("ty") == "str")]
+    import re
+    out = [x["v"] for x in find_all(n, lambda x: x.get("k") == "Lit" and x.get("ty") == "str")]
+    # string literals inside macro invocations (matches!, assert!, ...) arrive as unparsed tokens
+    for m in find_all(n, lambda x: x.get("k") == "Macro" and x.get("tokens")):
+        out += re.findall(r'"((?:[^"\\]|\\.)*)"', m["tokens"])
+    return out
 
 
 def macros(n, name=None):
